@@ -8,6 +8,7 @@ import DSymVerif.Proofs.CoversAction
 import DSymVerif.Proofs.CosetView
 import DSymVerif.Proofs.LowIndexGeneral
 import DSymVerif.Proofs.FundGroupTotal2
+import DSymVerif.Proofs.LowIndexClasses
 
 namespace DSymVerif.CoversP
 open DSymVerif DSymVerif.DS DSymVerif.FG DSymVerif.FGP DSymVerif.Cosets DSymVerif.SpecC11
@@ -105,27 +106,55 @@ theorem finiteUniversalCover_covering {ds : DSymData} (hs : ValidSym ds) (hsz : 
 
 /-! ### `covers` -/
 
-/-- the loop of `covers` over a list of items each of which is a table showing a valid table -/
+/-- the operations of a table cover, in terms of the Spec table: `op_i(sz·k + b) = sz·(k·w) + op_i b`
+    with `k·w` the row reached from row `k` by the edge word `w = edge_to_word(b,i)` -/
+def TableOps (ds c : DSymData) (e2w : E2W) (tab : Tab) (n : Nat) : Prop :=
+  ∀ i b k, i ≤ ds.dim → 1 ≤ b → b ≤ ds.size → k < tab.size →
+    ∃ r, SpecC11.traceWord tab n k (e2wGet e2w (b, i)) = some r ∧
+      c.dset.opU i (ds.size * k + b) = ds.size * r + ds.dset.opU i b
+
+theorem tableOps_of_shows {ds : DSymData} {f : FundGroup} (hf : fundamentalGroup ds = .ok f)
+    {tab : Tab} {t : Cosets.Table} (hsh : Shows t tab f.nrGenerators) {c : DSymData}
+    (hop : ∀ i d, i ≤ ds.dim → 1 ≤ d → d ≤ t.len * ds.size →
+      c.dset.opU i d = coverF ds.dset (sheetMapC t f.edgeToWord) i d) :
+    TableOps ds c f.edgeToWord tab f.nrGenerators := by
+  have hlet := (fundamentalGroup_letters ds f hf).2.2.1
+  intro i b k hi h1 h2 hk
+  have hk' : k < t.len := by rw [← hsh.1]; exact hk
+  obtain ⟨r, hr, hsp, _⟩ := traceC_shows hsh _ (hlet (b, i)) k hk'
+  refine ⟨r, hsp, ?_⟩
+  have hd := cmk_range (sz := ds.size) (n := t.len) hk' h1 h2
+  rw [hop i _ hi hd.1 hd.2]
+  have hmk : coverF ds.dset (sheetMapC t f.edgeToWord) i (ds.size * k + b) =
+      ds.size * sheetMapC t f.edgeToWord k i b + ds.dset.opU i b := coverF_mk (s := ds.dset) h1 h2
+  rw [hmk]
+  unfold sheetMapC sheetTraceC
+  rw [hr]
+
+/-- the loop of `covers` over a list of items each of which is a table showing a valid table
+    (with an arbitrary extra property `P` of the pair (model table, valid table) carried along) -/
 theorem coversFrom_covering {ds : DSymData} (hs : ValidSym ds) (hsz : 1 ≤ ds.size) (hdim : 1 ≤ ds.dim)
-    {f : FundGroup} (hf : fundamentalGroup ds = .ok f) (k : Nat) :
+    {f : FundGroup} (hf : fundamentalGroup ds = .ok f) (P : Cosets.Table → Tab → Prop) :
     ∀ (xs : List (Outcome Cosets.Table)),
       (∀ x ∈ xs, ∃ t tab, x = .ok t ∧ Valid tab f.nrGenerators f.relators [] ∧
-        Shows t tab f.nrGenerators ∧ t.len ≤ k) →
+        Shows t tab f.nrGenerators ∧ P t tab) →
       ∃ cs, coversFrom ds f.edgeToWord xs = .ok cs ∧
-        List.Forall₂ (fun x c => ∃ t, x = Outcome.ok t ∧ coverForTableC ds t f.edgeToWord = .ok c ∧
-          IsCoverOf ds c t.len ∧ t.len ≤ k) xs cs
+        List.Forall₂ (fun x c => ∃ t tab, x = Outcome.ok t ∧ coverForTableC ds t f.edgeToWord = .ok c ∧
+          IsCoverOf ds c tab.size ∧ TableOps ds c f.edgeToWord tab f.nrGenerators ∧ tab.size = t.len ∧
+          P t tab) xs cs
   | [], _ => ⟨[], rfl, List.Forall₂.nil⟩
   | x :: xs, h => by
-    obtain ⟨t, tab, hx, hval, hsh, hk⟩ := h x (List.mem_cons_self ..)
-    obtain ⟨c, hc, hcov, _⟩ := coverForTableC_covering hs hsz hdim hf hval hsh
-    obtain ⟨cs, hcs, hall⟩ := coversFrom_covering hs hsz hdim hf k xs
+    obtain ⟨t, tab, hx, hval, hsh, hP⟩ := h x (List.mem_cons_self ..)
+    obtain ⟨c, hc, hcov, hop, _⟩ := coverForTableC_covering hs hsz hdim hf hval hsh
+    obtain ⟨cs, hcs, hall⟩ := coversFrom_covering hs hsz hdim hf P xs
       (fun y hy => h y (List.mem_cons_of_mem _ hy))
     subst hx
-    refine ⟨c :: cs, ?_, List.Forall₂.cons ⟨t, rfl, hc, hcov, hk⟩ hall⟩
-    unfold coversFrom
-    rw [hc]
-    simp only
-    rw [hcs]
+    refine ⟨c :: cs, ?_, List.Forall₂.cons ⟨t, tab, rfl, hc, ?_, tableOps_of_shows hf hsh hop, hsh.1, hP⟩ hall⟩
+    · unfold coversFrom
+      rw [hc]
+      simp only
+      rw [hcs]
+    · rw [hsh.1]; exact hcov
 
 /-- **`covers(ds, k)` returns a list of coverings**: for every valid symbol and every bound the
     model returns (no panic anywhere: `fundamental_group` is total, the low-index search never
@@ -147,7 +176,7 @@ theorem covers_covering {ds : DSymData} (hs : ValidSym ds) (hsz : 1 ≤ ds.size)
   have hlet := (fundamentalGroup_letters ds f hf).1
   have hok := CanonP.cosetTables_ok_all f.nrGenerators f.relators k fuel hlet hfuel
   have hval := CanonP.cosetTables_valid_all f.nrGenerators f.relators k fuel hlet hfuel
-  obtain ⟨cs, hcs, hall⟩ := coversFrom_covering hs hsz hdim hf (max k 1)
+  obtain ⟨cs, hcs, hall⟩ := coversFrom_covering hs hsz hdim hf (fun t _ => t.len ≤ max k 1)
     (cosetTables f.nrGenerators f.relators k fuel) (by
       intro x hx
       obtain ⟨t, v, hxt, hview, hsize, hget⟩ := hok x hx
@@ -156,9 +185,67 @@ theorem covers_covering {ds : DSymData} (hs : ValidSym ds) (hsz : 1 ≤ ds.size)
       cases hview'
       refine ⟨t, viewTab v, hxt, valid_of_validTable hvt, ⟨hsize, hget⟩, ?_⟩
       rw [← hsize]; exact hle)
-  refine ⟨cs, ?_, hall⟩
-  unfold Covers.covers
-  rw [hf]
-  exact hcs
+  refine ⟨cs, ?_, hall.imp ?_⟩
+  · unfold Covers.covers
+    rw [hf]
+    exact hcs
+  · rintro x c ⟨t, tab, hx, hc, hcov, _, hsize, hP⟩
+    exact ⟨t, hx, hc, hsize ▸ hcov, hP⟩
+
+/-- **one entry per conjugacy class of subgroups**: `covers(ds,k)` lists, in the order of the
+    tables yielded by `coset_tables`, the covers of valid tables whose stabilisers of row 0 are a
+    system of representatives of the conjugacy classes of subgroups of index `1..k` of the returned
+    presentation `⟨1..n | relators⟩` (C12 `cosetTables_subgroup_classes`); the operations of each
+    cover are those of its table (`TableOps`), so the subgroup of a cover — the stabiliser of
+    sheet 0 under its own sheet action — is the stabiliser of row 0 of its table, and its number
+    of sheets is the index of that subgroup -/
+theorem covers_classes {ds : DSymData} (hs : ValidSym ds) (hsz : 1 ≤ ds.size) (hdim : 1 ≤ ds.dim)
+    (k fuel : Nat) :
+    ∃ f, fundamentalGroup ds = .ok f ∧
+      ((BT.dfs (btProblem f.nrGenerators (expandedRelatorSet f.relators) k) (height k)
+          (.ok (Table.new f.nrGenerators))).length ≤ fuel →
+        ∃ cs, Covers.covers ds k fuel = .ok cs ∧
+          List.Forall₂ (fun x c => ∃ (t : Cosets.Table) (v : List (List Int))
+              (hv : Valid (viewTab v) f.nrGenerators f.relators []),
+              x = Outcome.ok t ∧ t.view = .ok v ∧ coverForTableC ds t f.edgeToWord = .ok c ∧
+              IsCoverOf ds c (viewTab v).size ∧
+              TableOps ds c f.edgeToWord (viewTab v) f.nrGenerators ∧
+              (stab0 hv).index = (viewTab v).size ∧ (viewTab v).size ≤ max k 1)
+            (cosetTables f.nrGenerators f.relators k fuel) cs ∧
+          (cosetTables f.nrGenerators f.relators k fuel).Pairwise (fun x y =>
+            ∀ (t1 t2 : Cosets.Table) (v1 v2 : List (List Int))
+              (hv1 : Valid (viewTab v1) f.nrGenerators f.relators [])
+              (hv2 : Valid (viewTab v2) f.nrGenerators f.relators []),
+              x = .ok t1 → y = .ok t2 → t1.view = .ok v1 → t2.view = .ok v2 →
+              ¬ CanonP.SubConj (stab0 hv1) (stab0 hv2)) ∧
+          (∀ H : Subgroup (PresentedGroup (relSet f.nrGenerators f.relators)), H.index ≠ 0 → H.index ≤ k →
+            ∃ (t : Cosets.Table) (v : List (List Int))
+              (hv : Valid (viewTab v) f.nrGenerators f.relators []),
+              (Outcome.ok t) ∈ cosetTables f.nrGenerators f.relators k fuel ∧ t.view = .ok v ∧
+              CanonP.SubConj H (stab0 hv))) := by
+  obtain ⟨f, hf⟩ := fundamentalGroup_ok hs
+  refine ⟨f, hf, ?_⟩
+  intro hfuel
+  have hlet := (fundamentalGroup_letters ds f hf).1
+  have hok := CanonP.cosetTables_ok_all f.nrGenerators f.relators k fuel hlet hfuel
+  obtain ⟨p1, p2, p3⟩ := CanonP.cosetTables_subgroup_classes f.nrGenerators f.relators k fuel hlet hfuel
+  obtain ⟨cs, hcs, hall⟩ := coversFrom_covering hs hsz hdim hf
+    (fun t tab => ∃ (v : List (List Int)) (hv : Valid (viewTab v) f.nrGenerators f.relators []),
+      tab = viewTab v ∧ t.view = .ok v ∧ (stab0 hv).index = (viewTab v).size ∧ (viewTab v).size ≤ max k 1)
+    (cosetTables f.nrGenerators f.relators k fuel) (by
+      intro x hx
+      obtain ⟨t, v, hxt, hview, hsize, hget⟩ := hok x hx
+      obtain ⟨t', v', hv, hxt', hview', hidx, hle⟩ := p1 x hx
+      rw [hxt] at hxt'
+      cases hxt'
+      rw [hview] at hview'
+      cases hview'
+      exact ⟨t, viewTab v, hxt, hv, ⟨hsize, hget⟩, v, hv, rfl, hview, hidx, hle⟩)
+  refine ⟨cs, ?_, hall.imp ?_, p2, p3⟩
+  · unfold Covers.covers
+    rw [hf]
+    exact hcs
+  · rintro x c ⟨t, tab, hx, hc, hcov, hops, _, v, hv, rfl, hview, hidx, hle⟩
+    exact ⟨t, v, hv, hx, hview, hc, hcov, hops, hidx, hle⟩
 
 end DSymVerif.CoversP
